@@ -89,7 +89,33 @@ def run(ck):
             ck.ob('C24.typestate', 'C24.typestate/%s/%s' % (f.name, lab), not mp, f.loc(site),
                   '%s only after note_dispatch_end(state) (or on a freshly inserted / not in-flight state)' % lab,
                   mp[0][1] if mp else None)
-    ck.floor('C24.typestate', 'in_flight reset / peer_id overwrite / erase sites', n_sites, 5)
+    ck.floor('C24.typestate', 'in_flight reset / peer_id overwrite / erase sites', n_sites, 3)
+    # ... and the converse: once the provider's slot has been handed back (note_dispatch_end), the entry stops counting as in
+    # flight — the flag is cleared, or the entry is erased — before anything else can release the same slot again
+    n_rel = 0
+    for f in P.fns:
+        rel = [i for i in f.walk() if f.nodes[i].get('callee') == N + 'note_dispatch_end']
+        if not rel or f.q == N + 'note_dispatch_end':
+            continue
+        ck.touch(f)
+        cfg_ = Cfg.of(f)
+        for c_ in rel:
+            n_rel += 1
+
+            def settles(e, f=f):
+                nd_ = f.nodes[e]
+                if nd_['k'] in ('BinaryOperator', 'CXXOperatorCallExpr') and nd_.get('op') == '=':
+                    l_ = f.kids(e)[1 if nd_['k'] == 'CXXOperatorCallExpr' else 0]
+                    if f.nodes[f.strip(l_, casts=False)].get('m') == PFS + 'in_flight':
+                        return True
+                c2 = nd_.get('callee') or ''
+                if c2.endswith('::erase') and nd_['k'] == 'CXXMemberCallExpr' and f.receiver(e) is not None and f.nodes[f.receiver(e)].get('m') == N + 'pending_chunk_fetches_':
+                    return True
+                return any(settles(x) for x in f.kids(e)) if nd_['k'] in ('ExprWithCleanups', 'ImplicitCastExpr') else False
+            wit = cfg_.must_pass(c_, settles)
+            ck.ob('C24.typestate', 'C24.typestate/%s/released-then-settled#%d' % (f.name, n_rel), wit is None, f.loc(c_),
+                  'after note_dispatch_end(state) every path clears state.in_flight or erases the entry (a stale flag releases the slot a second time)', wit)
+    ck.floor('C24.typestate', 'note_dispatch_end call sites', n_rel, 2)
 
     # ---- (gate) -----------------------------------------------------------------------------
     pf = P.fn(N + 'process_pending_fetches')
@@ -243,3 +269,25 @@ def run(ck):
     ck.ob('C24.backoff', 'C24.backoff/attempts-counted-before-scheduling', not bad_, dp_.loc(sched_[0]) if sched_ else dp_.loc(),
           'in dispatch_pending_fetch `attempts` is incremented on every path before schedule_next_fetch_attempt derives the delay from it '
           '(otherwise the first two retries wait the same time)', bad_[0][1] if bad_ else None)
+
+    # ---- every retry deadline is counted from the current tick: next_attempt = now, now + delay, or "never" ------------------------------
+    from sa.canon import canon as _canon24, norm as _norm24
+    from props.common import assignments as _asg24
+    n_na = 0
+    for f in P.fns:
+        for l_, r_, s_ in _asg24(f):
+            ln = f.nodes[f.strip(l_, casts=False)]
+            if ln['k'] != 'MemberExpr' or ln.get('m') != PFS + 'next_attempt':
+                continue
+            n_na += 1
+            ck.touch(f)
+            t = _norm24(_canon24(f, r_))
+            now_names = {nd_.get('n') for nd_ in f.nodes if nd_['k'] in ('VarDecl',) and nd_.get('init') is not None and nd_['init'] >= 0 and
+                         any((f.nodes[j].get('callee') or '') == 'std::chrono::steady_clock::now' for j in f.walk(nd_['init']))} | \
+                {p_['n'] for p_ in f.params if 'time_point' in (p_.get('t') or '')}
+            ok_t = (t[0] == 'v' and t[1] in now_names) or \
+                (t[0] in ('op+', '+') and any(x[0] == 'v' and x[1] in now_names for x in t[1:])) or \
+                (t[0] == 'call' and t[1] == 'max')
+            ck.ob('C24.backoff', 'C24.backoff/deadline-from-now/%s#%d' % (f.name.split('::')[-1], n_na), ok_t, f.loc(s_),
+                  'next_attempt is set to now, now + delay, or time_point::max() — never derived from the previous deadline (found %r)' % (t,))
+    ck.floor('C24.backoff', 'assignments of next_attempt', n_na, 3)
